@@ -40,6 +40,12 @@ def consume_c04(ctx, lines, results):
                        kind_at_fault=(case.get("s") or {}).get("kind", case.get("shape", "?")),
                        arg_class=arg.get("k", case.get("via", "?")),
                        divergence="fatal" if res["crash"] == "died" else "hang", frame=res.get("frame", ""))
+            if "stack overflow" in res.get("detail", "") or "goroutine stack exceeds" in res.get("detail", ""):
+                # the frame on top when the limit is hit, and the position of the runaway schema, are accidental:
+                # one signature per operation for "the recursion does not end"
+                sjson = json.dumps(case.get("s") or {})
+                sig.update(divergence="stack_overflow", frame="", arg_class="any",
+                           kind_at_fault="scope" if '"kind": "scope"' in sjson or '"kind":"scope"' in sjson else sig["kind_at_fault"])
             ctx.violation(sig, dict(case=case, crash=res["crash"], stderr=res.get("detail", "")[:4000], statement=STATEMENT))
             continue
         base.account(ctx, r)
